@@ -354,23 +354,35 @@ func (r *Run) writeEvidence(status string) {
 // names code of the module under test is a violation, anything else is
 // inconclusive. The child runs body and writes the evidence.
 func Main(id, level string, watchdog time.Duration, body func(r *Run)) {
-	if os.Getenv("VERIF_CHILD") == id {
-		r := newRun(id, level)
-		func() {
-			defer func() {
-				if e := recover(); e != nil {
-					// A panic escaping the harness itself is a harness fault
-					// unless the check body converted it to a violation.
-					r.Inconclusive(fmt.Sprintf("harness panic: %v", e))
-					panic(e)
-				}
-			}()
-			body(r)
-		}()
-		os.Exit(r.finish())
+	if IsChild(id) {
+		os.Exit(RunChild(id, level, body))
 	}
 	os.Exit(supervise(id, level, watchdog))
 }
+
+// IsChild reports whether this process is the child that runs the check body.
+func IsChild(id string) bool { return os.Getenv("VERIF_CHILD") == id }
+
+// RunChild runs body, writes the evidence and returns the exit status
+// (for checks that must return through another framework's Main).
+func RunChild(id, level string, body func(r *Run)) int {
+	r := newRun(id, level)
+	func() {
+		defer func() {
+			if e := recover(); e != nil {
+				// A panic escaping the harness itself is a harness fault
+				// unless the check body converted it to a violation.
+				r.Inconclusive(fmt.Sprintf("harness panic: %v", e))
+				panic(e)
+			}
+		}()
+		body(r)
+	}()
+	return r.finish()
+}
+
+// Supervise is the supervisor half of Main.
+func Supervise(id, level string, watchdog time.Duration) int { return supervise(id, level, watchdog) }
 
 func (r *Run) finish() int {
 	status := "held"
